@@ -93,15 +93,20 @@ Record snode := mkSNode {
   s_queued : bool;                      (* queue.HasAny(providerID) *)
   s_buffer : Z }.                       (* cluster.BufferPodCount(providerID) *)
 
-(* in-memory protection state of a StateNode *)
-Record mem := mkMem { m_marked : bool; m_until : option Z }.   (* markedForDeletion, nominatedUntil (None = zero time) *)
+(* in-memory state of one entry of cluster.nodes: the protection memory and which of the two API objects the
+   entry currently holds (an entry holding neither does not exist) *)
+Record mem := mkMem {
+  m_marked : bool; m_until : option Z;   (* markedForDeletion, nominatedUntil (None = zero time) *)
+  m_claim : bool; m_node : bool }.       (* NodeClaim != nil, Node != nil *)
 
 Inductive op :=
 | OMark (id : string) | OUnmark (id : string) | ONominate (id : string)
 | OTick (dt : Z)
-| ORefresh (id : string).               (* UpdateNodeClaim + UpdateNode with the same objects *)
+| ODelNode (id : string)                 (* cluster.DeleteNode *)
+| ODelClaim (id : string)                (* cluster.DeleteNodeClaim *)
+| ORefresh (id : string) (c k : bool).   (* UpdateNodeClaim (if c) + UpdateNode (if k) with the node's objects *)
 
-Inductive fault := FNone | FPods | FPdbs | FPools.    (* which List call fails *)
+Inductive fault := FNone | FPods | FPdbs | FPools.    (* which List call fails; FPdbs also: pdb.NewLimits fails on an unparsable selector *)
 
 Record world := mkWorld {
   w_t0 : Z; w_bm : Z;                   (* clock at start; options.BatchMaxDuration *)
@@ -117,7 +122,10 @@ Definition is_consolidation (m : method) : bool := match m with Emptiness | Mult
 (* ------------------------------------------------------------------ in-memory state under operations *)
 Record dyn := mkDyn { d_now : Z; d_mem : list (string * mem) }.
 
-Definition mem0 := mkMem false None.
+Definition mem0 := mkMem false None false false.       (* no entry *)
+Definition is_set {A} (o : option A) : bool := match o with Some _ => true | None => false end.
+Definition mem_init (n : snode) : mem := mkMem false None (is_set (s_claim n)) (is_set (s_node n)).
+Definition alive (m : mem) : bool := m_claim m || m_node m.
 Fixpoint mem_of (ms : list (string * mem)) (id : string) : mem :=
   match ms with
   | [] => mem0
@@ -129,17 +137,39 @@ Definition upd (id : string) (f : mem -> mem) (ms : list (string * mem)) : list 
 Definition sec := 1000000000.
 Definition nom_window (bm : Z) : Z := Z.max (2 * bm) (10 * sec).      (* nominationWindow *)
 
+(* `if n, ok := c.nodes[id]; ok { ... }` *)
+Definition f_mark (m : mem) : mem := if alive m then mkMem true (m_until m) (m_claim m) (m_node m) else m.
+Definition f_unmark (m : mem) : mem := if alive m then mkMem false (m_until m) (m_claim m) (m_node m) else m.
+Definition f_nominate (until : Z) (m : mem) : mem :=
+  if alive m then mkMem (m_marked m) (Some until) (m_claim m) (m_node m) else m.
+(* cleanupNode: the entry goes away with its last object, otherwise only the Node pointer is dropped *)
+Definition f_delnode (m : mem) : mem :=
+  if m_node m then (if m_claim m then mkMem (m_marked m) (m_until m) true false else mem0) else m.
+(* cleanupNodeClaim *)
+Definition f_delclaim (m : mem) : mem :=
+  if m_claim m then (if m_node m then mkMem (m_marked m) (m_until m) false true else mem0) else m.
+(* newStateFromNodeClaim / newStateFromNode carry markedForDeletion and nominatedUntil over *)
+Definition f_refresh (c k : bool) (m : mem) : mem := mkMem (m_marked m) (m_until m) (m_claim m || c) (m_node m || k).
+
 Definition step (bm : Z) (d : dyn) (o : op) : dyn :=
   match o with
-  | OMark id => mkDyn (d_now d) (upd id (fun m => mkMem true (m_until m)) (d_mem d))
-  | OUnmark id => mkDyn (d_now d) (upd id (fun m => mkMem false (m_until m)) (d_mem d))
-  | ONominate id => mkDyn (d_now d) (upd id (fun m => mkMem (m_marked m) (Some (d_now d + nom_window bm))) (d_mem d))
+  | OMark id => mkDyn (d_now d) (upd id f_mark (d_mem d))
+  | OUnmark id => mkDyn (d_now d) (upd id f_unmark (d_mem d))
+  | ONominate id => mkDyn (d_now d) (upd id (f_nominate (d_now d + nom_window bm)) (d_mem d))
   | OTick dt => mkDyn (d_now d + dt) (d_mem d)
-  | ORefresh _ => d
+  | ODelNode id => mkDyn (d_now d) (upd id f_delnode (d_mem d))
+  | ODelClaim id => mkDyn (d_now d) (upd id f_delclaim (d_mem d))
+  | ORefresh id c k => mkDyn (d_now d) (upd id (f_refresh c k) (d_mem d))
   end.
 
-Definition init_dyn (w : world) : dyn := mkDyn (w_t0 w) (map (fun n => (s_id n, mem0)) (w_nodes w)).
+Definition init_dyn (w : world) : dyn := mkDyn (w_t0 w) (map (fun n => (s_id n, mem_init n)) (w_nodes w)).
 Definition final (w : world) : dyn := fold_left (step (w_bm w)) (w_ops w) (init_dyn w).
+(* the StateNode as cluster state holds it after the history *)
+Definition eff (n : snode) (m : mem) : snode :=
+  mkSNode (s_id n) (if m_claim m then s_claim n else None) (if m_node m then s_node n else None)
+          (s_pods n) (s_queued n) (s_buffer n).
+Definition final_nodes (w : world) : list snode :=
+  map (fun n => eff n (mem_of (d_mem (final w)) (s_id n))) (w_nodes w).
 Definition nominated (now : Z) (m : mem) : bool := match m_until m with Some u => now <? u | None => false end.
 
 (* ------------------------------------------------------------------ StateNode accessors *)
@@ -290,7 +320,6 @@ Definition new_candidate (w : world) (d : dyn) (ev : bool) (n : snode) : option 
   end.
 
 Definition is_empty (c : cand) : bool := resched_cost (cd_resched c) <=? 0.           (* Candidate.IsEmpty *)
-Definition is_set {A} (o : option A) : bool := match o with Some _ => true | None => false end.
 
 (* consolidation.ShouldDisrupt *)
 Definition should_consolidate (c : cand) : bool :=
@@ -322,7 +351,7 @@ Definition is_candidate (w : world) (d : dyn) (m : method) (n : snode) : bool :=
 Definition get_candidates (w : world) (m : method) : option (list string) :=
   match w_fault w with
   | FPools | FPdbs => None
-  | _ => Some (map s_id (filter (is_candidate w (final w) m) (w_nodes w)))
+  | _ => Some (map s_id (filter (is_candidate w (final w) m) (final_nodes w)))
   end.
 
 (* ------------------------------------------------------------------ Consolidatable condition maintenance *)
@@ -441,7 +470,7 @@ Definition extra_b (w : world) (m : method) (n : snode) : bool :=
 
 (* every observed candidate id of every method names an eligible node *)
 Definition holds_m (w : world) (m : method) (ids : list string) : bool :=
-  forallb (fun id => existsb (fun n => String.eqb (s_id n) id && eligible_b w (final w) m n) (w_nodes w)) ids.
+  forallb (fun id => existsb (fun n => String.eqb (s_id n) id && eligible_b w (final w) m n) (final_nodes w)) ids.
 
 (* oracle for the condition controller: True exactly when consolidateAfter is set, the claim is
    initialized and consolidateAfter has elapsed since the last pod event (or initialization) *)
